@@ -1,0 +1,18 @@
+//go:build verif
+
+package metadatapart
+
+import (
+	"github.com/jdillenkofer/pithos/internal/storage"
+	"github.com/jdillenkofer/pithos/internal/storage/metadatapart/gc"
+)
+
+// VerifGarbageCollector returns the part garbage collector of a storage built
+// by NewStorage/NewStorageWithNamedPartStores (verification harness only).
+func VerifGarbageCollector(s storage.Storage) (gc.PartGarbageCollector, bool) {
+	mbs, ok := s.(*metadataPartStorage)
+	if !ok {
+		return nil, false
+	}
+	return mbs.partGC, true
+}
